@@ -46,4 +46,84 @@ structure Fam (c : PCtx) (A B T U q g : String) (fs hs : List FieldSpec) : Prop
     set is finished first), then the helper `id` under `q` -/
 def scrubN (T U q g : String) : Scrub := [([q, g], [(U, ["id"])]), ([q], [(T, ["id"])])]
 
+theorem sanitizeSelsAcc_append (c : PCtx) (ip : List String) : ∀ (a b acc : List Sel) (sf : Scrub),
+    sanitizeSelsAcc c ip (a ++ b) acc sf
+      = (sanitizeSelsAcc c ip a acc sf).bind (fun r => sanitizeSelsAcc c ip b r.1 r.2)
+  | [], b, acc, sf => by simp [sanitizeSelsAcc, Except.bind]
+  | s :: a, b, acc, sf => by
+    simp only [List.cons_append]
+    rw [sanitizeSelsAcc, sanitizeSelsAcc]
+    simp only [bind]
+    cases sanitizeSel c ip s with
+    | error f => rfl
+    | ok r =>
+      simp only [Except.bind]
+      exact sanitizeSelsAcc_append c ip a b _ _
+
+variable {c : PCtx} {A B T U q g : String} {fs hs : List FieldSpec}
+
+theorem leaves_isEmpty (h : FamT c A B T q fs) : (leaves fs).isEmpty = false := by
+  cases hfs : fs with
+  | nil => exact absurd hfs h.hne
+  | cons a b => simp [leaves]
+
+theorem noid_leaves (h : FamT c A B T q fs) : containsField "id" (leaves fs) = false := by
+  rw [containsField_leaves]
+  simp only [List.contains_eq_mem, decide_eq_false_iff_not]
+  intro hm; exact h.hfid "id" hm rfl
+
+/-- sanitising the nested field at insertion point `[q]`: the helper `id` is added below `g` and
+    registered at path `[q, g]` under type `U` -/
+theorem sanitize_G (h : Fam c A B T U q g fs hs) :
+    sanitizeSel c [q] (Gc U g hs) = .ok ([Gs U g hs], [([q, g], [(U, ["id"])])]) := by
+  have hleaves : sanitizeSelsAcc c ([q] ++ [g]) (leaves hs) [] [] = .ok (leaves hs, []) :=
+    sanitize_leaves c ([q] ++ [g]) hs [] [] (by simpa using h.famU.hnd)
+  unfold Gc
+  rw [sanitizeSel]
+  simp only [leaves_isEmpty h.famU, Bool.false_eq_true, ↓reduceIte, bind, Except.bind, hleaves]
+  simp only [addScrubFields, TypeRef.name, abstractDef_none h.famU.hschemaT, h.famU.tumTn, Option.getD_some, ↓reduceIte,
+    withId, noid_leaves h.famU, Bool.false_eq_true]
+  obtain ⟨td, h1, h2⟩ := h.famU.hschemaT
+  simp [setMissing, h1, h2, isAbstractKind, Scrub.set, Gs]
+
+/-- **Stage 1 — sanitise**: `{ q { f… g { h… } } }` becomes `{ q { id f… g { id h… } } }`; the two
+    helper ids are registered for scrubbing at paths `[q, g]` (type `U`) and `[q]` (type `T`). -/
+theorem stage_sanitize (h : Fam c A B T U q g fs hs) :
+    sanitizeSels c [] [QN T U q g fs hs] = .ok ([QN' T U q g fs hs], scrubN T U q g) := by
+  have hleaves : sanitizeSelsAcc c ([] ++ [q]) (leaves fs) [] [] = .ok (leaves fs, []) :=
+    sanitize_leaves c ([] ++ [q]) fs [] [] (by simpa using h.hnd)
+  have hgal : hasFieldAliased (leaves fs) g = false := by
+    rw [hasFieldAliased_leaves]
+    simpa using h.hgnew
+  have hinner : sanitizeSelsAcc c ([] ++ [q]) (leaves fs ++ [Gc U g hs]) [] []
+      = .ok (leaves fs ++ [Gs U g hs], [([q, g], [(U, ["id"])])]) := by
+    rw [sanitizeSelsAcc_append, hleaves]
+    simp only [Except.bind, List.nil_append]
+    rw [sanitizeSelsAcc]
+    simp only [sanitize_G h, bind, Except.bind, sanitizeSelsAcc]
+    have : addToResult (leaves fs) [Gs U g hs] = leaves fs ++ [Gs U g hs] := by
+      simp [addToResult, Gs, hgal]
+    rw [this]
+    simp [Scrub.merge, Scrub.set]
+  have hempty : (leaves fs ++ [Gc U g hs]).isEmpty = false := by simp
+  have hgid' : (g == "id") = false := by simpa using h.hgid
+  have hnoid : containsField "id" (leaves fs ++ [Gs U g hs]) = false := by
+    have happ : ∀ (a b : List Sel), containsField "id" (a ++ b) = (containsField "id" a || containsField "id" b) := by
+      intro a b
+      induction a with
+      | nil => simp [containsField]
+      | cons x xs ih => simp [containsField, ih, Bool.or_assoc]
+    rw [happ, noid_leaves h.toFamT]
+    simp [containsField, containsFieldSel, Gs, hgid']
+  unfold sanitizeSels
+  rw [sanitizeSelsAcc]
+  simp only [QN, sanitizeSel, hempty, Bool.false_eq_true, ↓reduceIte, bind, Except.bind]
+  rw [hinner]
+  simp only [addScrubFields, TypeRef.name, abstractDef_none h.hschemaT, h.tumTn, Option.getD_some, ↓reduceIte,
+    withId, hnoid, Bool.false_eq_true]
+  obtain ⟨td, h1, h2⟩ := h.hschemaT
+  have hne : ([q, g] == [q]) = false := by simp
+  simp [sanitizeSelsAcc, addToResult, hasFieldAliased, setMissing, Scrub.merge, Scrub.set, QN', scrubN, h1, h2,
+    isAbstractKind]
+
 end PebblesVerif.FlatNested
